@@ -696,7 +696,12 @@ def drive(check_id: str, tier: str, master: int | None, workers: int | None = No
             print(f"KNOWN-FINDING: property={check_id} {k['id']} {k['what']} (seen {known_seen[k['id']]}x)", flush=True)
     # ---- evidence -----------------------------------------------------------
     wall = _real_time.monotonic() - t0
-    write_evidence(check_id, check, tier, master, br, wall, wall_batch, det, known_seen, len(violations), workers)
+    try:
+        write_evidence(check_id, check, tier, master, br, wall, wall_batch, det, known_seen, len(violations), workers)
+    except HarnessError as e:
+        log(f"evidence not written: {e}")
+        if rc == 0:
+            rc = 2
     n = len(br.results)
     log(f"property={check_id} runs={n} wall={wall:.1f}s violations={len(violations)} "
         f"known={dict(known_seen)} capped={br.wall_capped} rc={rc}")
